@@ -486,7 +486,83 @@ def _replay_c08(case, model):
     obs = _clist(["(%s, %s)" % (_cz(o[0]), _cz(o[1])) for o in m[1][1:]], "(Z * Z)")
     return "c08_eqb (c08_out %s %s) (%s, %s)" % (_clist(["%s%%nat" % n for n in c[1]], "nat"), _clist(ops, "wop"), log, obs)
 
-REPLAYERS = {"C11": _replay_c11, "C14": _replay_c14, "C08": _replay_c08}
+
+def _cnat(a): return "%s%%nat" % int(a)
+def _c_stmt(x):
+    k = x[0]
+    if k == "use": return "(SUse %s)" % _clist([_cnat(i) for i in x[1:]], "nat")
+    if k == "group": return "(SGroup %s %s %s)" % (_cstr(x[1]), _clist([_cnat(i) for i in x[2]], "nat"), _clist([_c_stmt(y) for y in x[3]], "stmt"))
+    if k == "route": return "(SRoute %s %s %s %s %s %s)" % (_clist([_cstr(m) for m in x[1]], "str"), _cstr(x[2]), _cnat(x[3]),
+                                                             _clist([_cnat(i) for i in x[4]], "nat"), _clist([_cnat(i) for i in x[5]], "nat"), _cstr(x[6]))
+    if k == "nf": return "(SNotFound %s)" % _clist([_cnat(i) for i in x[1:]], "nat")
+    if k == "nal": return "(SNotAllowed %s)" % _clist([_cnat(i) for i in x[1:]], "nat")
+    raise ValueError(k)
+def _c_wop(o):
+    k = o[0]
+    if k == "st": return "(WSetStatus %s)" % _cz(o[1])
+    if k == "hd": return "(WSetHeader %s %s)" % (_cstr(o[1]), _cstr(o[2]))
+    if k == "wr": return "(WWrite %s)" % _cstr(o[1])
+    if k == "fl": return "WFlush"
+    if k == "he": return "(WHttpError %s %s)" % (_cstr(o[1]), _cz(o[2]))
+    if k == "rd": return "(WRedirect %s %s)" % (_cstr(o[1]), _cz(o[2]))
+    if k == "ob": return "WObs"
+    raise ValueError(k)
+def _c_hop(o):
+    k = o[0]
+    if k == "ev": return "(OEff (EEv %s))" % _cnat(o[1])
+    if k == "next": return "ONext"
+    if k in ("abort", "abortthen"): return "OAbort"
+    if k == "abs": return "(OAbortStatus %s)" % _cz(o[1])
+    if k == "isab": return "OIsAborted"
+    if k == "panic": return "(OPanic %s)" % _cnat(o[1])
+    if k == "w": return "(OEff (EW %s))" % _c_wop(o[1])
+    if k == "sd": return "(OEff (ESetData %s %s))" % (_cstr(o[1]), _cnat(o[2]))
+    if k == "ae": return "(OEff (EAddError %s))" % _cnat(o[1])
+    if k == "sp": return "(OEff (ESetParam %s %s))" % (_cstr(o[1]), _cstr(o[2]))
+    if k == "rr": return "(OEff EReplaceResp)"
+    if k == "rq": return "(OEff EReplaceReq)"
+    if k == "snap": return "(OEff ESnap)"
+    raise ValueError(k)
+def _c_wev(e):
+    if e[0] == "wh": return "(WH %s)" % _cz(e[1])
+    if e[0] == "w": return "(W %s)" % _cstr(e[1])
+    return "F"
+
+def _replay_c12(case, model):
+    c = _sx(case); m = _sx(model)
+    if c[0] != "rp": return None
+    strict = any(o == ["strict"] for o in c[1])
+    inp = "c12_out %s %s" % ("true" if strict else "false", _clist([_c_stmt(x) for x in c[2]], "stmt"))
+    if m == ["regpanic"]: exp = "None"
+    else:
+        reg = m[0][1:]
+        routes = _clist(["(%s, %s)" % (_cstr(r[1]), _cnat(r[2])) for r in reg if r[0] == "route"], "(str * nat)")
+        sc = [r for r in reg if r[0] == "scope"][0]
+        exp = "(Some (%s, (%s, %s, %s)))" % (routes, _cstr(sc[1]), _cnat(sc[2]), _cnat(sc[3]))
+    return "c12_eqb (%s) %s" % (inp, exp)
+
+def _replay_c04(case, model):
+    c = _sx(case); m = _sx(model)
+    if c[0] != "rp": return None
+    for o in c[1]:
+        if o not in (["strict"], ["na"]): return None
+    strict = any(o == ["strict"] for o in c[1]); na = any(o == ["na"] for o in c[1])
+    hs = _clist(["(%s, (%s : hprog))" % (_cnat(h[0]), _clist([_c_hop(o) for o in h[1]], "hop")) for h in c[3]], "(nat * hprog)")
+    reqs = _clist(["(%s, %s, %s)" % (_cstr(r[0]), _cstr(r[1]), _clist([_cnat(n) for n in r[2]], "nat")) for r in c[4]], "(str * str * list nat)")
+    inp = "c04_out %s %s %s %s %s" % ("true" if strict else "false", "true" if na else "false", _clist([_c_stmt(x) for x in c[2]], "stmt"), hs, reqs)
+    if m == ["regpanic"]: exp = "None"
+    else:
+        outs = []
+        for rq in m[1][1:]:
+            tr = [x for x in rq[1][1:]]; lg = rq[2][1:]
+            if rq[3][1] == "fuel": return None
+            evs = _clist([_cnat(x[1]) for x in tr if x[0] == "e"], "nat")
+            outs.append("(Some (%s, %s))" % (evs, _clist([_c_wev(e) for e in lg], "wev")))
+        exp = "(Some %s)" % _clist(outs, "(option (list nat * list wev))")
+    return "c04_eqb (%s) %s" % (inp, exp)
+
+REPLAYERS = {"C11": _replay_c11, "C14": _replay_c14, "C08": _replay_c08, "C12": _replay_c12, "C04": _replay_c04}
+
 
 def coq_replay(ctx):
     """evaluates a sample of the run's cases inside Coq (vm_compute) and compares with the extracted model's output"""
@@ -505,7 +581,7 @@ def coq_replay(ctx):
     if not terms: return {}
     path = os.path.join(ctx["wd"], "ReplayCases.v")
     with open(path, "w") as fo:
-        fo.write("From Rux Require Import Base Str Norm Cache Writer Replay.\nOpen Scope Z_scope.\n")
+        fo.write("From Rux Require Import Base Str Norm Cache Writer Chain Dispatch Reg Table Sys Replay Replay2.\nOpen Scope Z_scope.\n")
         fo.write("Definition results : list bool := [\n  " + ";\n  ".join(terms) + "\n].\n")
         fo.write("Definition bad := Eval vm_compute in count_false results.\nPrint bad.\n")
     t0 = time.time()
